@@ -38,6 +38,46 @@ func minLenFromLits(s *pstate, term string) int64 {
 			}
 		}
 	}
+	// len(term) >= T with T == k / T >= k on the same path
+	pre := "len(" + term + ") "
+	for l := range s.lits {
+		if !strings.HasPrefix(l, pre) {
+			continue
+		}
+		rest := l[len(pre):]
+		var add int64
+		var t string
+		switch {
+		case strings.HasPrefix(rest, ">= "):
+			t = rest[3:]
+		case strings.HasPrefix(rest, "> "):
+			t, add = rest[2:], 1
+		case strings.HasPrefix(rest, "== "):
+			t = rest[3:]
+		default:
+			continue
+		}
+		if _, err := strconv.ParseInt(t, 10, 64); err == nil {
+			continue
+		}
+		for _, op := range []string{" == ", " >= ", " > "} {
+			for m := range s.lits {
+				if !strings.HasPrefix(m, t+op) {
+					continue
+				}
+				k, err := strconv.ParseInt(m[len(t+op):], 10, 64)
+				if err != nil {
+					continue
+				}
+				if op == " > " {
+					k++
+				}
+				if k+add > best {
+					best = k + add
+				}
+			}
+		}
+	}
 	return best
 }
 
@@ -75,6 +115,22 @@ func minLenOf(f *Facts, s *pstate, v ssa.Value, depth int) int64 {
 	case *ssa.MakeSlice:
 		if k, ok := constInt(resolve(s, x.Len)); ok && k > best {
 			best = k
+		} else if !ok {
+			lt := f.tr.term(s, x.Len, 0)
+			for _, op := range []string{" == ", " >= ", " > "} {
+				for m := range s.lits {
+					if strings.HasPrefix(m, lt+op) {
+						if k, err := strconv.ParseInt(m[len(lt+op):], 10, 64); err == nil {
+							if op == " > " {
+								k++
+							}
+							if k > best {
+								best = k
+							}
+						}
+					}
+				}
+			}
 		}
 	case *ssa.Alloc:
 		if arr, ok := derefArray(x.Type()); ok && arr > best {
@@ -96,6 +152,9 @@ func derefArray(t types.Type) (int64, bool) {
 	}
 	return 0, false
 }
+
+// boundsAccept: property-specific accepted forms (interprocedural postconditions established by another rule).
+var boundsAccept func(f *Facts, s *pstate, base, need ssa.Value, plus int64) (bool, string)
 
 // BoundsRule checks every slice expression and constant index on []byte values in fn.
 func (c *Ctx) BoundsRule(rule string, fn *ssa.Function, frozen map[string]string) int {
@@ -131,6 +190,14 @@ func (c *Ctx) BoundsRule(rule string, fn *ssa.Function, frozen map[string]string
 		ok := len(states) > 0
 		detail := ""
 		for _, s := range states {
+			if boundsAccept != nil {
+				if okA, why := boundsAccept(f, s, base, need, plus); okA {
+					if detail == "" {
+						detail = why
+					}
+					continue
+				}
+			}
 			ml := minLenOf(f, s, base, 0)
 			if need == nil {
 				if ml < plus {
